@@ -109,18 +109,40 @@ impl Op {
 pub struct Case11 {
     pub cmds: Vec<RCmd>,
     pub history: Vec<Op>,
+    /// how the source file is laid out: 0 = one line; otherwise bit (i mod 16) says whether a line break (instead of a blank)
+    /// follows command i, so that the locations the listings show move across lines and columns
+    pub layout: u16,
+}
+
+impl Case11 {
+    pub fn source(&self) -> String {
+        if self.layout == 0 {
+            return crate::refparse::render_canonical(&self.cmds);
+        }
+        let mut s = String::new();
+        for (i, c) in self.cmds.iter().enumerate() {
+            s.push_str(&crate::refparse::cmd_text(c));
+            if i + 1 < self.cmds.len() {
+                s.push(if (self.layout >> (i % 16)) & 1 == 1 { '\n' } else { ' ' });
+            }
+        }
+        s
+    }
 }
 
 impl Case for Case11 {
     fn to_json(&self) -> Value {
         let mut v = cmds_json(&self.cmds);
         v["history"] = Value::Array(self.history.iter().map(|o| o.to_json()).collect());
+        v["layout"] = json!(self.layout);
+        v["program"] = json!(self.source());
         v
     }
     fn from_json(v: &Value) -> Option<Self> {
         let cmds = v.get("cmds")?.as_array()?.iter().map(RCmd::from_json).collect::<Option<Vec<_>>>()?;
         let history = v.get("history")?.as_array()?.iter().map(|x| x.as_str().and_then(Op::from_line)).collect::<Option<Vec<_>>>()?;
-        Some(Case11 { cmds, history })
+        let layout = v.get("layout").and_then(|x| x.as_u64()).unwrap_or(0) as u16;
+        Some(Case11 { cmds, history, layout })
     }
 }
 
@@ -533,7 +555,7 @@ fn listing_index(line: &str) -> Option<usize> {
 }
 
 pub fn check(c: &Case11, st: &mut Stats, bin: &std::path::Path, scratch: &std::path::Path, budget: usize) -> CheckResult {
-    let text = crate::refparse::render_canonical(&c.cmds);
+    let text = c.source();
     // pass 1: the trajectory without state dumps (rendering thousands of states is the expensive part) ...
     let t = trajectory(&text, budget, &|_| false)?;
     if let TrajEnd::Unsupported(why) = t.end {
@@ -632,6 +654,9 @@ pub fn check(c: &Case11, st: &mut Stats, bin: &std::path::Path, scratch: &std::p
             Chunk::Breakpoints(list) => {
                 let shown: Vec<usize> = lines.iter().filter_map(|l| listing_index(l)).collect();
                 ensure!(shown == *list, "c11:breakpoints", "{}: listed breakpoints {:?} want {:?}", at(), shown, list);
+                if list.len() >= 2 && text.contains('\n') {
+                    st.class("breakpoint listing with >= 2 entries on a multi-line source");
+                }
             }
         }
     }
@@ -646,6 +671,9 @@ pub fn check(c: &Case11, st: &mut Stats, bin: &std::path::Path, scratch: &std::p
     });
     if t.steps.iter().any(|s| !s.out.is_empty() || !s.err.is_empty()) {
         st.class("program writes output");
+    }
+    if text.contains('\n') {
+        st.class("source on several lines");
     }
     if t.steps.iter().map(|s| s.out.len() + s.err.len()).sum::<usize>() > 4096 {
         st.class("program writes more than 4 KiB");
@@ -699,16 +727,17 @@ fn strategy() -> BoxedStrategy<Case11> {
             p
         }),
     ];
-    (prog, any::<bool>())
-        .prop_flat_map(|(cmds, final_exit)| {
+    let layout = prop_oneof![2 => Just(0u16), 3 => any::<u16>(), 1 => prop::sample::select(vec![0x8000u16, 0x0100, 0x4040, 0xFFFF])];
+    (prog, any::<bool>(), layout)
+        .prop_flat_map(|(cmds, final_exit, layout)| {
             let n = cmds.len();
-            (Just(cmds), prop::collection::vec(op(n), 0..40), Just(final_exit))
+            (Just(cmds), prop::collection::vec(op(n), 0..40), Just(final_exit), Just(layout))
         })
-        .prop_map(|(cmds, mut history, final_exit)| {
+        .prop_map(|(cmds, mut history, final_exit, layout)| {
             if final_exit {
                 history.push(Op::Exit);
             }
-            Case11 { cmds, history }
+            Case11 { cmds, history, layout }
         })
         .boxed()
 }
@@ -757,7 +786,7 @@ fn long_strategy() -> BoxedStrategy<Case11> {
             if tail_exit {
                 h.push(Op::Exit);
             }
-            Case11 { cmds, history: h }
+            Case11 { cmds, history: h, layout: 0 }
         })
         .boxed()
 }
@@ -801,6 +830,8 @@ pub fn gates(out: &Outcome, tier: Tier) -> Vec<String> {
         ("program writes more than 4 KiB", 20),
         ("history with >= 255 single steps", 30),
         ("exit command", 1000),
+        ("source on several lines", 5000),
+        ("breakpoint listing with >= 2 entries on a multi-line source", 800),
     ] {
         if out.stats.get(class) < min * m {
             v.push(format!("class '{}' has {} cases, need >= {}", class, out.stats.get(class), min * m));
